@@ -161,6 +161,33 @@ def strat_walk_real(draw, tier):
     return case
 
 
+def exec_history(case):
+    """several walks one after another in ONE process: state left behind by a walk must not leak into the next"""
+    cls = set(["history"])
+    nt = False
+    for i, w in enumerate(case["walks"]):
+        try:
+            out = exec_walk(w)
+        except Violation as v:
+            raise Violation(v.clause, f"walk #{i} of a history of {len(case['walks'])} walks in one process: {v.msg}")
+        cls.update(out.classes)
+        nt = nt or out.nontrivial
+    return Outcome(classes=sorted(cls), nontrivial=nt and len(case["walks"]) >= 2, count=len(case["walks"]))
+
+
+@st.composite
+def strat_history(draw, tier):
+    n = draw(st.integers(2, 3))
+    walks = []
+    for i in range(n):
+        w = draw(scen.pyramid_cases(3 if tier == "quick" else 4, min_depth=1))
+        if w.get("k", 1) == 1 and draw(st.booleans()):
+            w["k"] = 2
+            w["sched"] = draw(scen.schedules())
+        walks.append(w)
+    return {"walks": walks}
+
+
 def strat_walk(tier):
     return scen.pyramid_cases(4 if tier == "quick" else 6)
 
@@ -216,6 +243,18 @@ PARTS = [
     ),
 ]
 PARTS[1].exhaustive_tiers = {"thorough"}
+PARTS.append(
+    Part(
+        "walk_history_sim",
+        exec_history,
+        strategy=strat_history,
+        examples={"quick": 600, "thorough": 40000},
+        shards={"quick": 16, "thorough": 16},
+        budget_s={"quick": 60, "thorough": 1200},
+        engine="A / serial for k=1",
+        describe="histories of 2-3 walks (different pyramids, filters, worker counts) in one process",
+    )
+)
 PARTS.append(
     Part(
         "walk_realmp",
